@@ -224,31 +224,61 @@ def nth(s, i):
     return s[i]
 
 
+def _slen(e):
+    """length of a sequence term as integer arithmetic over the lengths of its atomic sub-terms"""
+    if z3.is_app(e):
+        k = e.decl().kind()
+        if k == z3.Z3_OP_SEQ_CONCAT:
+            r = z3.IntVal(0)
+            for ch in e.children():
+                r = r + _slen(ch)
+            return r
+        if k == z3.Z3_OP_SEQ_UNIT:
+            return z3.IntVal(1)
+        if k == z3.Z3_OP_SEQ_EMPTY:
+            return z3.IntVal(0)
+        if k == z3.Z3_OP_SEQ_EXTRACT:
+            src, a, l = e.arg(0), e.arg(1), e.arg(2)
+            ls = _slen(src)
+            return z3.If(z3.Or(a < 0, a >= ls, l <= 0), z3.IntVal(0), z3.If(a + l > ls, ls - a, l))
+    return z3.Length(e)
+
+
+def _sat(e, ke):
+    """element ke of a sequence term (unspecified outside its bounds), resolved structurally"""
+    if z3.is_app(e):
+        k = e.decl().kind()
+        if k == z3.Z3_OP_SEQ_CONCAT:
+            off = z3.IntVal(0)
+            cases = []
+            for ch in e.children():
+                ln = _slen(ch)
+                cases.append((off + ln, _sat(ch, ke - off)))
+                off = off + ln
+            r = cases[-1][1]
+            for hi, v in reversed(cases[:-1]):
+                r = z3.If(ke < hi, v, r)
+            return r
+        if k == z3.Z3_OP_SEQ_UNIT:
+            return e.arg(0)
+        if k == z3.Z3_OP_SEQ_EXTRACT:
+            return _sat(e.arg(0), e.arg(1) + ke)
+    rep = S.ctx().ghost.get("rep_consts", {}) if S.active() else {}
+    if e.get_id() in rep:
+        return z3.IntVal(rep[e.get_id()])
+    return e[ke]
+
+
+def seq_len(s):
+    """len(s) as arithmetic over atomic lengths (see seq_at)"""
+    if not isinstance(s, SymSeq):
+        return len(s)
+    return mk(z3.simplify(_slen(s.e)))
+
+
 def seq_at(s, k):
-    """s[k] (no bounds check) with concatenations resolved structurally: for s = p1 ++ p2 ++ ... the
-    result is a case split on k against the prefix lengths, so the solver only sees `nth` of atomic
-    sequence terms plus linear arithmetic (z3 is slow on nth-of-concat)."""
+    """s[k] (no bounds check) with concatenations and slices resolved structurally: the solver only sees `nth`
+    of atomic sequence terms plus linear arithmetic (z3 is slow on nth / length of nested concat / extract)."""
     if not isinstance(s, SymSeq):
         return s[k]
-    parts = s._parts()
-    if not parts:
-        return mk(s.e[as_z3_int(k)])
-    ke = as_z3_int(k)
-    off = z3.IntVal(0)
-    cases = []
-    for (e, unit) in parts:
-        if unit is not None:
-            cases.append((off, off + 1, unit))
-            off = off + 1
-        else:
-            ln = z3.Length(e)
-            rep = S.ctx().ghost.get("rep_consts", {}) if S.active() else {}
-            if e.get_id() in rep:
-                cases.append((off, off + ln, z3.IntVal(rep[e.get_id()])))      # a run of one constant (sym.repeat_seq)
-            else:
-                cases.append((off, off + ln, e[ke - off]))
-            off = off + ln
-    r = cases[-1][2]
-    for (lo, hi, v) in reversed(cases[:-1]):
-        r = z3.If(ke < hi, v, r)
-    return mk(z3.simplify(r))
+    return mk(z3.simplify(_sat(s.e, as_z3_int(k))))
